@@ -15,7 +15,6 @@ From HP Require Import Proofs.UnreadableParser.
 (** what has been opened can be read to the end *)
 Definition opened_ok (o : opened) : Prop :=
   match o with
-  | ONone => True
   | OData d f => f = NoFault /\ scan_complete d
   | ODir => False
   end.
@@ -33,9 +32,28 @@ Definition file_fully_read (w : world) (p : bytes) : Prop :=
   forall data, lookup p (w_fs w) = Some (FFile data) ->
                lookup p (w_read_fault w) = None /\ snd (scan data NoFault) = ScanEOF.
 
-Lemma path_ok_fully_read : forall w p, p <> [] -> path_ok w p -> file_fully_read w p.
+Lemma beq_true_eq : forall p q : bytes, beq p q = true -> p = q.
+Proof.
+  induction p as [|a p IH]; intros [|c q] E; try discriminate E.
+  - reflexivity.
+  - cbn [beq] in E. apply andb_true_iff in E. destruct E as [E1 E2].
+    apply N.eqb_eq in E1. subst c. f_equal. apply IH. exact E2.
+Qed.
+
+Lemma beq_dev_null_false : forall p, p <> dev_null -> beq p dev_null = false.
+Proof.
+  intros p H. destruct (beq p dev_null) eqn:E; [|reflexivity].
+  exfalso. apply H. apply beq_true_eq. exact E.
+Qed.
+
+(** an empty name never opens (fix F24) *)
+Lemma path_ok_nonempty : forall w p, path_ok w p -> p <> [].
+Proof. intros w p [o [Hopen _]] ->. discriminate Hopen. Qed.
+
+Lemma path_ok_fully_read : forall w p, p <> dev_null -> path_ok w p -> file_fully_read w p.
 Proof.
   intros w p Hne [o [Hopen Hok]]. unfold open_file, lookup_fs in Hopen.
+  rewrite (beq_dev_null_false p Hne) in Hopen.
   destruct p as [|c p']; [congruence|].
   unfold file_fully_read.
   destruct (lookup (c :: p') (w_fs w)) as [[d| |e]|] eqn:El.
@@ -65,9 +83,10 @@ Proof.
   cbn [option_map] in H. injection H as <-. exists o1, o2. repeat split; reflexivity.
 Qed.
 
-(** * The files a command reads (empty names are never opened) *)
+(** * The files of the world a command reads (the null device, which [--no-database] makes the book,
+       is not one of them; since fix F24 an EMPTY name is: it is a file that cannot be opened) *)
 
-Definition named (p : bytes) : list bytes := match p with [] => [] | _ => [p] end.
+Definition named (p : bytes) : list bytes := if beq p dev_null then [] else [p].
 
 Definition files_read (op : options) (c : command) : list bytes :=
   match c with
@@ -79,12 +98,12 @@ Definition files_read (op : options) (c : command) : list bytes :=
   | CStats => named (op_log op) ++ named (op_db op)
   end.
 
-Lemma In_named : forall p q, In p (named q) <-> p = q /\ q <> [].
+Lemma In_named : forall p q, In p (named q) <-> p = q /\ q <> dev_null.
 Proof.
-  intros p q. destruct q as [|c q']; cbn [named In].
-  - split; [intros [] | intros [_ H]; congruence].
+  intros p q. unfold named. destruct (beq q dev_null) eqn:E; cbn [In].
+  - split; [intros [] | intros [_ H]]. rewrite (beq_dev_null_false q H) in E. discriminate E.
   - split.
-    + intros [H|[]]. split; [symmetry; exact H | discriminate].
+    + intros [H|[]]. split; [symmetry; exact H | intros ->; vm_compute in E; discriminate E].
     + intros [H _]. left. symmetry. exact H.
 Qed.
 
@@ -100,11 +119,7 @@ Section CliLevel.
     opened_ok o /\ fst (parse_opened NM cb o s) = feed cb (events NM (opened_data o)) s.
   Proof.
     intros S cb o s Hcb H. unfold parse_opened in *.
-    destruct o as [|d f|]; cbn [opened_ok opened_data].
-    - pose proof (success_implies_whole_file NM cb [] NoFault s) as Hw.
-      destruct (parse_stream NM cb [] NoFault s) as [s' r]. cbn [fst snd] in *.
-      assert (Hr : r = None) by (destruct r as [[e|[]]|]; congruence).
-      destruct (Hw Hr Hcb) as [_ [_ Hst]]. split; [exact I | exact Hst].
+    destruct o as [d f|]; cbn [opened_ok opened_data].
     - pose proof (success_implies_whole_file NM cb d f s) as Hw.
       destruct (parse_stream NM cb d f s) as [s' r]. cbn [fst snd] in *.
       assert (Hr : r = None) by (destruct r as [[e|[]]|]; congruence).
@@ -192,14 +207,14 @@ Section CliLevel.
                      | Some c =>
                          let t := time_of_civil c in
                          ((S cnt, match first with Some _ => first | None => Some t end, t), false, None)
-                     | None => ((S cnt, first, zero_time), false, None)
+                     | None => (st, true, Some EBadDate)
                      end
                  end.
 
   Lemma stats_log_cb_stops : forall toks, stops_only_with_error (stats_log_cb toks).
   Proof.
     intros toks [[cnt first] last] ev s' e H. unfold stats_log_cb in H. destruct ev as [n|pe].
-    - destruct (parse_date toks (header n)); discriminate.
+    - destruct (parse_date toks (header n)); [discriminate|]. injection H as _ <-. discriminate.
     - injection H as _ <-. discriminate.
   Qed.
 
@@ -333,53 +348,43 @@ Section CliLevel.
 
   Lemma run_stats_ok : forall w op,
     out_status (run_stats NM w op) = Ok ->
-    op_log op <> [] /\ path_ok w (op_log op) /\ (op_db op = [] \/ path_ok w (op_db op)).
+    path_ok w (op_log op) /\ path_ok w (op_db op).
   Proof.
     intros w op H. unfold run_stats in H.
     destruct (open_file w (op_log op)) as [olog|] eqn:Eol; [|discriminate].
-    destruct olog as [|d f|]; [discriminate| |].
-    all: match type of Eol with _ = Some ?o =>
-           change (parse_opened NM _ o ?s) with
-             (parse_opened NM (stats_log_cb (rc_date (op_rc op))) o s) in H;
-           destruct (parse_opened NM (stats_log_cb (rc_date (op_rc op))) o (O, None, zero_time))
-             as [[[cl fi] la] e1] eqn:Ep;
-           (destruct e1 as [e|]; [discriminate|]);
-           pose proof (parse_opened_ok _ _ _ _ _ (stats_log_cb_stops _) Ep) as Hlog
-         end.
-    2: destruct Hlog.
+    change (parse_opened NM _ olog ?s) with
+             (parse_opened NM (stats_log_cb (rc_date (op_rc op))) olog s) in H.
+    destruct (parse_opened NM (stats_log_cb (rc_date (op_rc op))) olog (O, None, zero_time))
+             as [[[cl fi] la] e1] eqn:Ep.
+    destruct e1 as [e|]; [discriminate|].
+    pose proof (parse_opened_ok _ _ _ _ _ (stats_log_cb_stops _) Ep) as Hlog.
     split.
-    { intros Hnil. rewrite Hnil in Eol. discriminate. }
-    split.
-    { exists (OData d f). split; [exact Eol | exact Hlog]. }
-    destruct (op_db op) as [|c p'] eqn:Edb; [left; reflexivity | right].
-    destruct (open_file w (c :: p')) as [odb|] eqn:Eod; [|discriminate].
-    destruct odb as [|d2 f2|]; [discriminate| |].
-    all: match type of Eod with _ = Some ?o =>
-           change (parse_opened NM _ o O) with (parse_opened NM stats_db_cb o O) in H;
-           destruct (parse_opened NM stats_db_cb o O) as [cdb [e|]] eqn:Ep2; [discriminate|];
-           exists o; split; [exact Eod|];
-           exact (parse_opened_ok _ _ _ _ _ stats_db_cb_stops Ep2)
-         end.
+    { exists olog. split; [exact Eol | exact Hlog]. }
+    destruct (open_file w (op_db op)) as [odb|] eqn:Eod; [|discriminate].
+    change (parse_opened NM _ odb O) with (parse_opened NM stats_db_cb odb O) in H.
+    destruct (parse_opened NM stats_db_cb odb O) as [cdb [e|]] eqn:Ep2; [discriminate|].
+    exists odb. split; [exact Eod|].
+    exact (parse_opened_ok _ _ _ _ _ stats_db_cb_stops Ep2).
   Qed.
 
   (** * The program *)
 
   Lemma paths2 : forall w p1 p2, path_ok w p1 -> path_ok w p2 ->
-    forall p, In p (named p1 ++ named p2) -> p <> [] /\ path_ok w p.
+    forall p, In p (named p1 ++ named p2) -> p <> dev_null /\ path_ok w p.
   Proof.
     intros w p1 p2 H1 H2 p Hin. apply in_app_or in Hin.
     destruct Hin as [Hin|Hin]; apply In_named in Hin; destruct Hin as [-> Hne]; split; assumption.
   Qed.
 
   Lemma paths1 : forall w p1, path_ok w p1 ->
-    forall p, In p (named p1) -> p <> [] /\ path_ok w p.
+    forall p, In p (named p1) -> p <> dev_null /\ path_ok w p.
   Proof.
     intros w p1 H1 p Hin. apply In_named in Hin. destruct Hin as [-> Hne]. split; assumption.
   Qed.
 
   Lemma run_ok_paths : forall w i, out_status (run NM w i) = Ok ->
     exists op, load w i = inr op /\
-               forall p, In p (files_read op (i_cmd i)) -> p <> [] /\ path_ok w p.
+               forall p, In p (files_read op (i_cmd i)) -> p <> dev_null /\ path_ok w p.
   Proof.
     intros w i H. unfold run in H.
     destruct (load w i) as [e|op]; [discriminate|].
@@ -396,9 +401,7 @@ Section CliLevel.
     - (* csv log *) apply run_log_ok in H. apply paths1; assumption.
     - (* csv database *) apply run_csv_db_ok in H. apply paths1; assumption.
     - (* csv database-resolved *) apply run_csv_db_resolved_ok in H. apply paths1; assumption.
-    - (* stats *) apply run_stats_ok in H. destruct H as [_ [H1 [Hnil|H2]]].
-      + rewrite Hnil. cbn [named]. rewrite app_nil_r. apply paths1; assumption.
-      + apply paths2; assumption.
+    - (* stats *) apply run_stats_ok in H. destruct H as [H1 H2]. apply paths2; assumption.
     - (* summary *)
       destruct (time_from_string w (op_now op) (rc_date (op_rc op)) arg) as [e|t]; [discriminate|].
       apply run_db_log_ok in H. destruct H as [H1 H2]. apply paths2; assumption.
@@ -464,5 +467,16 @@ Section CliLevel.
     destruct (command_success_whole_file w i Hok) as [op' [Hl' Hall]].
     rewrite Hl in Hl'. injection Hl' as <-.
     destruct (Hall p Hin) as [Hnn _]. congruence.
+  Qed.
+
+  (** fix F24: an empty file name is a file that cannot be opened, for every command and every file it reads *)
+  Theorem empty_name_is_error : forall w i op,
+    load w i = inr op -> In [] (files_read op (i_cmd i)) ->
+    out_status (run NM w i) <> Ok.
+  Proof.
+    intros w i op Hl Hin Hok.
+    destruct (run_ok_paths w i Hok) as [op' [Hl' Hp]].
+    rewrite Hl in Hl'. injection Hl' as <-.
+    destruct (Hp [] Hin) as [_ Hpo]. exact (path_ok_nonempty w [] Hpo eq_refl).
   Qed.
 End CliLevel.
